@@ -61,7 +61,9 @@ def bead_sample(spec):
     sat = spec.get('saturated')
     sigma = math.sqrt(math.log(1 + cv * cv))
     rows, labels = [], []
+    nev_list = list(nev) if isinstance(nev, (list, tuple)) else [nev] * n_pop
     for j in range(n_pop):
+        nev = nev_list[j]
         z = rs.normal(size=(nev, nch + 2))
         for i in range(nev):
             fl = []
@@ -86,7 +88,7 @@ def bead_sample(spec):
     elif order == 'reversed':
         idx = idx[::-1]
     elif order == 'interleaved':
-        idx = sorted(idx, key=lambda i: (i % nev, i // nev))
+        idx = sorted(idx, key=lambda i: (i % nev_list[0], i // nev_list[0]))
     rows = [rows[i] for i in idx]
     labels = [labels[i] for i in idx]
     lead, trail = spec.get('lead', 0), spec.get('trail', 0)
